@@ -131,6 +131,10 @@ STRENGTHENED = {
     "C19-9": "re-used network whose upstream input changed before finite_difference is called",
     "C19-10": "modules whose output state is a view of the perturbed input",
     # ---- earlier seeds caught after later strengthenings
+    "C13-5": "element sizes given as integers (an admissible input whose array dtype is integer)",
+    "C16-4": "floating-point overflow is invisible to exact-real arithmetic: concrete regression items on wide-range data (not a solver verdict)",
+    "C18-4": "non-finite entries are outside exact-real arithmetic: concrete regression items for reset() of kept allocations holding inf / nan (not a solver verdict)",
+    "C03-6": "same fault class as C18-4: caught by the concrete non-finite items of C18 (C03 itself has no non-finite values)",
     "C02-6": "networks built step by step with Network.append (inner network extended after nesting); observables are snapshots",
     "C06-6": "LinSolve wrapping its solver: the class flags handed to the LDAWrapper must be true of the matrix",
     "C15-6": "soft deadline per item: counterexamples of the explored paths are reported although the change multiplies the paths "
@@ -168,15 +172,10 @@ STRENGTHENED = {
 NOT_CAUGHT = {
     "C10-3": "outside the claim: the fault needs integer-typed design vectors (np.concatenate keeps int64, np.zeros_like then truncates "
              "fractional bounds); object arrays carry no integer/float distinction and the logical-dtype mode only tracks real/complex",
-    "C16-4": "outside the claim: a floating-point overflow (exp of > 709) of a mathematically neutral log-sum-exp shift; float64 is "
-             "modelled as exact reals",
-    "C18-4": "outside the claim: needs inf/nan entries in a sensitivity (x *= 0 keeps nan); non-finite values are not modelled",
     "C01-5": "not confirmed: z3 finds the dropped dyads (norm < 1e-12), but at that magnitude the finite-difference replay cannot tell "
              "0 from 6e-12 and the run ends inconclusive (494 sat answers, none reproduced); C15 does not finish under this change",
-    "C03-6": "outside the claim: needs a nan/inf sensitivity entry",
     "C05-6": "outside the claim: accuracy of SuperLU without pivoting (the factorisation is a stub; only the class/flag admissibility of "
              "auto_determine_solver is decided, and the new option is unknown to that predicate)",
-    "C13-5": "outside the claim: needs integer-typed element sizes (dtype of the work array)",
     "C18-5": "outside the claim: mixing real and complex values inside one signal (listed in OUTSIDE of C18)",
     "C20-6": "outside the claim: needs an array of more than 262144 values (bound: meshes up to 15 elements per axis)",
     "C10-8": "outside the claim: stopping rule of the outer MMA iteration (|dx|/|x| with or without scaling by the variable ranges); "
